@@ -38,7 +38,9 @@ def run(res, tier, rng):
 
     nontriv = set()
     bad_inputs = ["", "   ", "http://example.com:99999/a", "http://example.com:8x/", "http://[::1/a", "http://a]/", "http://[zz]/", "\x00", "http://", "://", "http://x.com:65536",
-                  "http://forum-m.example.com/a", "http://a-www.example.com", "http://www.m.lemonde.fr"]
+                  "http://forum-m.example.com/a", "http://a-www.example.com", "http://www.m.lemonde.fr",
+                  "example.com:99999/a", " http://example.com:99999/a\t", "http://example.com:99999/%e9", "HTTP://Example.com:8x/A", "ex\x00ample.com:99999/", "http://[::1/a b",
+                  "http://r.com/?url=http%3A%2F%2Fexample.com%3A99999%2Fa", "/home", "home", "?q=1", "#/a", "a.com/login?next=%2Fhome", "/a/b/?c=1#d", "http:///a//b", "//", "/", "http:///"]
     urls = list(bad_inputs)
     for _ in range(3000 if tier == "quick" else 50000):
         urls.append(gen_url(rng))
@@ -73,6 +75,12 @@ def run(res, tier, rng):
             continue
         if got != u:
             nontriv.add(u)
+        # the string result is the unsplit=False result put back together (minus the '//' announcing a netloc
+        # when the scheme is dropped): nothing else may be cut off
+        whole = U.urlunsplit(sp)
+        exp_str = (whole[2:] if sp.netloc else whole) if (o["strip_protocol"] or not had_proto) else whole
+        if got != exp_str:
+            res.violation("property", "normalize_url's string result is not its unsplit=False result put back together", input=dict(url=u, options=o), impl=got, expected=exp_str)
         # host: only whole irrelevant labels (or a leading 'amp-') removed
         h_out = sp.hostname or ""
         h_in = r0.hostname or ""
@@ -99,7 +107,8 @@ def run(res, tier, rng):
         # the query: a sub-multiset (sublist when not sorted) of the input items
         if not o["quoted"]:
             from ural.quote import safely_unquote_query_item as uq
-            q_in = r0.query
+            from ural.quote import upper_quoted
+            q_in = upper_quoted(r0.query)      # normalize_url upper-cases the hex digits of escapes first (C02's spelling rule)
             if o["fix_common_mistakes"]:
                 q_in = re.sub(r"(?i)&amp(?:%3B|;)", "&", q_in)
             items_in = [tuple(uq(x) for x in it.split("=", 1)) for it in q_in.split("&")] if q_in else []
